@@ -57,7 +57,10 @@ def semantic_update_check(oa):
     mixed = ["PoseSE3", "PoseR2", "PoseSE2", "PoseR3"]
     sweep_scns = [s for s in SCENARIOS if s.name in ("free", "fix-first", "fixed-two", "all-fixed")] + [
         Scenario("mixed-free", mixed, [(0, 3), (2, 1)]), Scenario("mixed-fix-first", mixed, [(0, 3), (2, 1)], fix_first_pose=True),
-        Scenario("mixed-fixed-middle", mixed, [(0, 3), (2, 1)], fixed=[1, 2]), Scenario("mixed-fixed-last", mixed[::-1], [(0, 3), (2, 1)], fixed=[3])]
+        Scenario("mixed-fixed-middle", mixed, [(0, 3), (2, 1)], fixed=[1, 2]), Scenario("mixed-fixed-last", mixed[::-1], [(0, 3), (2, 1)], fixed=[3]),
+        # a free vertex that was created from the same pose object as a fixed one: the update must not reach the fixed pose
+        Scenario("shared-pose-object-fixed-free", ["PoseSE2", "PoseR2", "PoseSE2"], [(0, 1), (2, 1)], fixed=[0], alias=(0, 2)),
+        Scenario("shared-pose-object-free-fixed", ["PoseR2", "PoseSE2", "PoseR2"], [(0, 1), (2, 1)], fixed=[2], alias=(0, 2))]
     results = []
     for scn in sweep_scns:
         _poly.reset()
